@@ -361,6 +361,53 @@ def rule_narrowing(ctx):
     ctx.floor("R5", "narrowing integer conversions in the HTTP crate", n, 4)
 
 
+def rule_lookup_keys_folded(ctx):
+    """R4: header fields looked up by a fixed lower-case name (`user-agent`, `accept-language`, `server`) are found whatever the case
+    of the name on the wire: a map that is queried with lower-case literals is filled with case-folded keys"""
+    P = ctx.program
+    n = 0
+    for b0 in sorted(P.bodies.values(), key=lambda x: x.path):
+        if b0.crate != "huginn_net_http" or b0.kind == "Closure" or not b0.blocks:
+            continue
+        if not any(callee_of(t).endswith(("HashMap::<K, V, S, A>::get", "HashMap::<K, V, S>::get")) for _, t in b0.calls()):
+            continue
+        S0 = T.Slicer(b0, P)
+        lits = []
+        for blk, t in b0.calls():
+            if callee_of(t).endswith(("HashMap::<K, V, S, A>::get", "HashMap::<K, V, S>::get")):
+                a = Q.call_args(b0, S0, blk, t)
+                k = T.strip(a[1])
+                while k[0] in ("ref", "deref"):
+                    k = T.strip(k[2] if k[0] == "ref" else k[1])
+                if k[0] == "const" and isinstance(k[1], str) and k[1] == k[1].lower() and any(ch.isalpha() for ch in k[1]):
+                    lits.append(k[1])
+        if not lits:
+            continue
+        keys = []
+        for b in L.with_closures(P, b0):
+            S = T.Slicer(b, P) if b is not b0 else S0
+            for blk, t in b.calls():
+                if callee_of(t).endswith(("HashMap::<K, V, S, A>::insert", "HashMap::<K, V, S>::insert")):
+                    a = Q.call_args(b, S, blk, t)
+                    keys.append((b, blk, a[1]))
+            # pairs collected into the map: `(name.., value)` tuples returned by a map / filter_map closure
+            if b is not b0:
+                for (rb, j, term, _c) in TB.return_sites(b, P):
+                    for x in T.walk(term):
+                        if x[0] == "agg" and x[1] == "tuple" and len(x[4]) == 2:
+                            keys.append((b, rb, x[4][0]))
+        keys = [(b, blk, k) for (b, blk, k) in keys if any(x[0] == "field" and x[2] == "name" for x in T.walk(k))]
+        if not keys:
+            continue
+        n += 1
+        raw = [(b, blk, k) for (b, blk, k) in keys if not (T.has_call(k, "to_lowercase") or T.has_call(k, "to_ascii_lowercase"))]
+        ctx.check(not raw, "R4", "lookup-keys:%s" % T.short(b0.path).split("::")[-1], "map queried with %s is keyed by lower-cased names" % sorted(set(lits))[:3],
+                  "%s looks fields up by the lower-case names %s in a map keyed by the name as sent: a field whose name arrives with capitals (`User-Agent` as an HPACK "
+                  "literal) is not found although it is in the header list - user agent / language / software are reported as absent" % (T.short(b0.path), sorted(set(lits))[:3]),
+                  ctx.loc(raw[0][0], raw[0][1]) if raw else ctx.loc(b0))
+    ctx.floor("R4", "name-keyed lookup maps queried with lower-case literals", n, 2)
+
+
 def rule_one_stream(ctx):
     """R5: a message is assembled from the frames of ONE stream: wherever build_stream compares a frame's stream id with the stream it
     assembles, the comparison is an equality (`==` / `!=`), never an ordering - frames of other streams do not leak into the message"""
@@ -392,6 +439,7 @@ def rule_one_stream(ctx):
 
 
 def run(ctx):
+    rule_lookup_keys_folded(ctx)
     rule_one_stream(ctx)
     rule_narrowing(ctx)
     rule_first_separator(ctx)
